@@ -568,7 +568,10 @@ func Step(s *Arch, m Mem) (u Unspec) {
 		if oi.Mn == "cop" {
 			vec = 0xffe4
 		}
-		s.PC = x.rd16b0(vec)
+		// the vector is fetched after the pushes (documented sequence of the interrupt entry): a stack that overlaps
+		// the vector makes the new PC come from the freshly stacked bytes; this order is defined, not left open
+		s.PC = uint16(x.m.R(uint32(vec))) | uint16(x.m.R(uint32(vec+1)))<<8
+		x.reads[uint32(vec)], x.reads[uint32(vec+1)] = true, true
 	case "jmp":
 		switch oi.Md {
 		case MAbs:
